@@ -127,6 +127,40 @@ impl Prop for C02Prop {
                 }
             }
         }
+        // checksum brute force over frame-like prefixes x small capacities
+        let mut rng = Rng::new(0xC02B);
+        let nprefix = if tier == Tier::Thorough { 400 } else { 40 };
+        for i in 0..nprefix {
+            // data (aligned or not), optionally with literal escapes near the end, then an end sequence
+            let mut p = crate::refenc::START.to_vec();
+            let n = rng.below(12);
+            let mut data = gen::payload_tokens(&mut rng, n);
+            if i % 2 == 0 {
+                let k = 4 * rng.below(3);
+                data.truncate(k);
+                while data.len() < k {
+                    data.push(0x40 + data.len() as u8);
+                }
+            }
+            p.extend_from_slice(&data);
+            match i % 4 {
+                0 => p.extend_from_slice(&[0x1b; 8]),
+                1 => {
+                    p.extend_from_slice(&[0x1b; 8]);
+                    p.extend(std::iter::repeat(0x1b).take(rng.range(1, 3)));
+                }
+                2 => p.extend(std::iter::repeat(0x00).take(rng.below(5))),
+                _ => {}
+            }
+            p.extend_from_slice(&[0x1b, 0x1b, 0x1b, 0x1b, 0x1a, rng.below(4) as u8]);
+            let body_len = p.len() - 8 - 6;
+            for buf in [BufKind::Vec, BufKind::Arr(body_len.saturating_sub(1).min(40)), BufKind::Arr(body_len.saturating_sub(5).min(40)), BufKind::Arr((body_len + 3).min(40))] {
+                let mut l = LinkScn::new("C02", "crc-bruteforce", Fe::Push, buf);
+                l.segs.push(Seg::Raw(crate::hexbytes::Hx(p.clone())));
+                l.knobs.insert("crc_bruteforce".into(), 1);
+                v.push(Scenario::Link(l));
+            }
+        }
         v
     }
 
@@ -180,6 +214,9 @@ impl Prop for C02Prop {
 
     fn exec(&self, scn: &Scenario, st: &mut Stats) -> Outcome {
         let l = link(scn);
+        if l.knob("crc_bruteforce") == 1 {
+            return exec_bruteforce(l, st);
+        }
         let built = build_stream(&l.segs);
         count_wire_faults(st, &built);
         let stream = &built.stream;
@@ -261,4 +298,43 @@ impl Prop for C02Prop {
         }
         finish(st, &obs, violation, any_fault || byz, (stream.len() + obs.len()) as u64)
     }
+}
+
+
+/// The attacker who "recomputes checksums for any framing", taken literally: a frame-like prefix
+/// ending in `1b1b1b1b 1a pp` is completed with every one of the 65536 possible checksums.  Whatever
+/// the decoder's idea of the checksummed bytes is, one of them matches it - and then a payload may
+/// be reported only if the whole stream ends in its canonical frame.
+fn exec_bruteforce(l: &LinkScn, st: &mut Stats) -> Outcome {
+    let prefix = match l.segs.first() {
+        Some(Seg::Raw(b)) => b.0.clone(),
+        _ => return Outcome::default(),
+    };
+    let mut stream = prefix.clone();
+    stream.extend_from_slice(&[0, 0]);
+    let n = stream.len();
+    let mut violation = None;
+    let mut delivered = 0u64;
+    let mut last_obs = Vec::new();
+    for crc in 0..=0xffffu32 {
+        stream[n - 2] = (crc & 0xff) as u8;
+        stream[n - 1] = (crc >> 8) as u8;
+        let obs = fe::drive_push_kind(l.buf, &stream, &[], 0, true);
+        if obs.iter().any(|o| matches!(o.item, Item::Msg(_))) {
+            delivered += 1;
+            if let Err(d) = check_sound(&stream, &obs, true) {
+                if violation.is_none() {
+                    violation = Some(Violation::oracle(
+                        "C02.payload-without-canonical-frame",
+                        format!("checksum brute force, buffer {:?}, checksum bytes {:02x} {:02x}: {}", l.buf, stream[n - 2], stream[n - 1], d),
+                    ));
+                }
+            }
+            last_obs = obs;
+        }
+    }
+    st.bump("probe", "crc-bruteforce-scenarios");
+    st.add("probe", "crc-bruteforce-accepted", delivered);
+    st.add("counters", "crc-bruteforce-decoder-runs", 65536);
+    finish(st, &last_obs, violation, true, 65536 * stream.len() as u64)
 }
